@@ -787,4 +787,121 @@ theorem stale_table_skips_message :
       = .notReady := by decide
 
 
+/-! ## Variant `selectWaitsForAnswer` (patch notes/C05-fixes/01) -/
+
+/-- **Flag off = HEAD**: while no process has unanswered targets recorded (always the case with the flag
+    off — the second conjunct keeps it so), the variant's Select step IS `Exec.selectPure`: every theorem
+    above is a theorem about the flag-off machine. -/
+theorem variant_off_is_head (w : ExecW V) (pid now : Nat) (srcs : List (Source V)) (hun : w.un pid = []) :
+    (w.selectPure {} pid now srcs).1.ex = (w.ex.selectPure pid now srcs).1 ∧
+    (w.selectPure {} pid now srcs).2 = (w.ex.selectPure pid now srcs).2 ∧
+    (w.selectPure {} pid now srcs).1.un pid = [] := by
+  unfold ExecW.selectPure
+  cases hp : w.ex.getProc pid with
+  | none => simp [Exec.selectPure, hp, hun]
+  | some p =>
+    cases hs : p.sel with
+    | none => simp [hs, ExecW.un, amLookup_insert_self]
+    | some st =>
+      have hun' : (amLookup pid w.unanswered).getD [] = [] := hun
+      simp [hs, ExecW.un, hun']
+
+/-- **Flag on: nothing is evaluated before the answer is in.** A select with an unanswered target parks
+    again: no source is looked at, the process record (mailbox, cursors, start time, awaiting) is untouched. -/
+theorem waits_parks_before_answer (v : Variant) (w : ExecW V) (pid now : Nat) (srcs : List (Source V))
+    (p : Proc V) (st : SelState V) (hp : w.ex.getProc pid = some p) (hs : p.sel = some st) (hun : w.un pid ≠ []) :
+    (w.selectPure v pid now srcs).2 = some .parked ∧
+    (w.selectPure v pid now srcs).1.ex = w.ex.markSelecting pid ∧
+    (w.selectPure v pid now srcs).1.unanswered = w.unanswered := by
+  unfold ExecW.selectPure
+  have : (w.un pid).isEmpty = false := by
+    cases h : w.un pid with
+    | nil => exact absurd h hun
+    | cons _ _ => rfl
+  simp [hp, hs, this]
+
+/-- Flag on: a new select lists exactly its process sources as unanswered. -/
+theorem waits_initialize_lists_targets (w : ExecW V) (pid now : Nat) (srcs : List (Source V))
+    (p : Proc V) (hp : w.ex.getProc pid = some p) (hs : p.sel = none) :
+    (w.selectPure { selectWaitsForAnswer := true } pid now srcs).1.un pid = pidTargets srcs := by
+  unfold ExecW.selectPure
+  simp [hp, hs, ExecW.un, amLookup_insert_self]
+
+/-- An answer for `t` (result, failure, placeholder) removes `t` from the list and nothing else. -/
+theorem answer_removes_target (w : ExecW V) (a t : Nat) :
+    (w.notifyPending a t).un a = (w.un a).filter (· != t) := by
+  simp [ExecW.notifyPending, ExecW.markAnswered, ExecW.un, amLookup_insert_self]
+
+/-- Flag on: the select evaluates (reaches `Exec.selectPure`) only with every target answered. -/
+theorem waits_evaluates_only_when_answered (v : Variant) (w : ExecW V) (pid now : Nat) (srcs : List (Source V))
+    (p : Proc V) (st : SelState V) (hp : w.ex.getProc pid = some p) (hs : p.sel = some st)
+    (r : StepRes V) (hr : (w.selectPure v pid now srcs).2 = some r) (hne : r ≠ .parked) : w.un pid = [] := by
+  by_cases hun : w.un pid = []
+  · exact hun
+  · rw [(waits_parks_before_answer v w pid now srcs p st hp hs hun).1] at hr
+    cases hr; exact absurd rfl hne
+
+/-! ### System-level readiness -/
+
+theorem selectSpec_congr (mb : List V) (r1 r2 : Nat → Option (Res V)) (start now : Nat) :
+    ∀ (srcs : List (Source V)), (∀ t, t ∈ pidTargets srcs → r1 t = r2 t) →
+      selectSpec mb r1 start now srcs = selectSpec mb r2 start now srcs
+  | [], _ => rfl
+  | .await t :: rest, h => by
+    have ht : r1 t = r2 t := h t (by simp [pidTargets])
+    have ih := selectSpec_congr mb r1 r2 start now rest (fun t' ht' => h t' (by simp [pidTargets, ht']))
+    simp only [selectSpec, ht, ih]
+  | .receive ty f :: rest, h => by
+    have ih := selectSpec_congr mb r1 r2 start now rest (fun t' ht' => h t' (by simpa [pidTargets] using ht'))
+    simp only [selectSpec, ih]
+  | .timeout ms :: rest, h => by
+    have ih := selectSpec_congr mb r1 r2 start now rest (fun t' ht' => h t' (by simpa [pidTargets] using ht'))
+    simp only [selectSpec, ih]
+  | .invalid e :: rest, _ => rfl
+
+/-- **Knowledge-based and system-level specification agree once the answers are in**: if every target
+    that had certainly finished before the select started is known to the process (what an answer
+    delivers: it is produced after the select started, so it carries the result of such a target), the
+    first ready source by what is TRUE is the first ready source by what the process KNOWS. With
+    `select_completes_with_spec` / `select_fails_with_spec`: under the variant a completing select yields
+    the system-level specification. -/
+theorem spec_sys_eq_spec_when_answered (mb : List V) (known certain : Nat → Option (Res V)) (start now : Nat)
+    (srcs : List (Source V)) (hcov : ∀ t, t ∈ pidTargets srcs → known t = none → certain t = none) :
+    selectSpecSys mb known certain start now srcs = selectSpec mb known start now srcs := by
+  unfold selectSpecSys
+  apply selectSpec_congr
+  intro t ht
+  unfold sysResults
+  cases hk : known t with
+  | some r => rfl
+  | none => simp [hcov t ht hk]
+
+
+/-! ### Witnesses (`decide`): `! [p, #'int]`, a message arrives before the await answer; `p` (= process 1)
+had finished with 7 before the select started. -/
+
+def raceSources : List (Source Nat) := [.await 1, .receive (fun _ => true) none]
+
+/-- the select is initialised (Action::Await, parked), then the message 5 arrives and wakes it -/
+def wokenByMessage (v : Variant) : ExecW Nat :=
+  ((({ ex := { procs := [(0, {})] } } : ExecW Nat).selectPure v 0 0 raceSources).1).notifyMessage 0 5
+
+/-- HEAD (flag off): the woken select completes with the message although process 1 — whose answer has not
+    arrived — finished before the select started: the system-level specification says 7. -/
+theorem head_completes_before_answer :
+    ((wokenByMessage {}).selectPure {} 0 0 raceSources).2 = some (.completed (.value 5)) ∧
+    selectSpecSys [5] (fun _ => none) (fun t => if t = 1 then some (.ok 7) else none) 0 0 raceSources
+      = .yields (.value 7) none := by decide
+
+/-- Patched (flag on): the same wake-up parks again; the placeholder answer alone lets the select go on
+    (process 1 unfinished at query time: the message wins, legitimately); the answer carrying 7 makes it
+    yield 7 although the message has been in the mailbox all along. -/
+theorem waits_parks_then_yields_the_finished_target :
+    ((wokenByMessage { selectWaitsForAnswer := true }).selectPure { selectWaitsForAnswer := true } 0 0 raceSources).2
+      = some .parked ∧
+    ((((wokenByMessage { selectWaitsForAnswer := true }).selectPure { selectWaitsForAnswer := true } 0 0 raceSources).1.notifyResultOk 0 1 7).selectPure
+        { selectWaitsForAnswer := true } 0 0 raceSources).2 = some (.completed (.value 7)) ∧
+    (((((wokenByMessage { selectWaitsForAnswer := true }).selectPure { selectWaitsForAnswer := true } 0 0 raceSources).1.notifyPending 0 1).wake 0).selectPure
+        { selectWaitsForAnswer := true } 0 0 raceSources).2 = some (.completed (.value 5)) := by decide
+
 end C05
